@@ -118,7 +118,12 @@ def gen_case(rng):
     if rng.random() < 0.35:
         rows = [[F(0)] * n, [F(1)] + [F(0)] * (n - 1)]
         eqs.append(rm.sig_leaf(rows, [F(rng.choice([1, 2])), F(-1)]))
-    return {'f': f, 'gts': gts, 'eqs': eqs, 'p': rng.choice([0, 0, 1]), 'q': rng.choice([1, 1, 2]), 'ell': rng.choice([0, 0, 1]),
+    q = rng.choice([1, 1, 2])
+    if gts and rng.random() < 0.3:
+        # the same constraint listed twice (two separately built, equal objects): at q = 1 each copy has its own multiplier
+        gts.insert(rng.randint(0, len(gts)), dict(rng.choice(gts)))
+        q = 1
+    return {'f': f, 'gts': gts, 'eqs': eqs, 'p': rng.choice([0, 0, 1]), 'q': q, 'ell': rng.choice([0, 0, 1]),
             'slacks': rng.random() < 0.5, 'infer': rng.random() < 0.4}
 
 
@@ -156,6 +161,14 @@ def lagrangian_real(case):
 def identity_oracle(case, rng, f, L, ineq, eq, gamma):
     """L(x) = f - gamma - sum s_g g - sum z_h h as coefficient dictionaries, under a random rational assignment"""
     from sageopt.coniclifts.base import Expression
+    # every Variable the Lagrangian depends on is gamma or the coefficient vector of a RETURNED multiplier (a multiplier that is in L
+    # but not in the returned pairs is never constrained by the relaxation built from them)
+    if isinstance(L.c, Expression):
+        returned = {id(gamma)} | {id(v) for s, _ in list(ineq) + list(eq) for v in s.c.variables()}
+        stray = [v.name for v in L.c.variables() if id(v) not in returned]
+        if stray:
+            return ('the Lagrangian depends on the Variable %s, which is neither gamma nor a coefficient of a returned multiplier (%d pairs '
+                    'returned for %d + %d constraints)' % (stray[0][:40], len(ineq) + len(eq), len(case['gts']), len(case['eqs'])))
     gv = F(rng.randint(-3, 3), 2)
     gamma.value = np.array(float(gv))
     ref = {}
@@ -302,6 +315,9 @@ def run(ctx):
             ctx.disagreement('qfold', c, {'gts': [str(x) for x in rg], 'eqs': [str(x) for x in re_]},
                              {'gts': [str(model_key(s)) for s in mg], 'eqs': [str(model_key(s)) for s in me]})
             plans.append(None)
+            why = identity_oracle(c, rng, f, L, ineq, eq, gamma)
+            if why:
+                ctx.violation('Lagrangian identity: ' + why, {'stream': 'lagrangian', 'case': c})
             continue
         # numbering: gamma -> 0, then the multiplier coefficients in the MODEL's order of folded constraints
         id2k = {int(gamma.scalar_variable_ids[0]): 0}
